@@ -35,8 +35,8 @@ CHECKS = {
          "Signature::verify is compared on every generated case with an independent evaluation of the Pointcheval-Sanders relation from the key's wire atoms, and with the verdict expected by construction; degenerate signatures are reached through a scripted RNG.",
          "bls12_381 pairing and group law",
          "5 C07"),
- "C08": ("proptest over honest, single-atom-tampered and jointly moved signature requests; differential against an independent Schnorr evaluation",
-         "Honest requests must yield the very commitment of the proof as blind-signable value and a signature verifying only on the message; tampered requests must yield none; a request whose commitment and response are moved together is accepted for, and signed as, the other commitment; whatever field is changed, an accepted request hands out the commitment its proof is about.",
+ "C08": ("proptest over honest, single-atom-tampered and jointly moved signature requests; differential against an independent Schnorr evaluation; generated bare commitments pushed through every conversion trait of the blind-signable type (compile-time probes)",
+         "Honest requests must yield the very commitment of the proof as blind-signable value and a signature verifying only on the message; tampered requests must yield none; a request whose commitment and response are moved together is accepted for, and signed as, the other commitment; whatever field is changed, an accepted request hands out the commitment its proof is about; no other route (Deserialize, From, Default) hands out a blind-signable value.",
          "bls12_381 arithmetic; hook commitment_of exposes VerifiedBlindedMessage's commitment",
          "5 C08"),
  "C09": ("proptest; reference model (independent accumulation and scalar-only evaluation with known discrete logs)",
@@ -47,7 +47,7 @@ CHECKS = {
          "Scenarios of 1-3 proofs with every documented pattern built as the documentation prescribes; all verify_* must hold under the proof-derived challenge, which must equal the builder-derived one, and the pattern relations must hold.",
          "documented recipes of zkchannels_crypto::proofs",
          "5 C10"),
- "C11": ("proptest over atom perturbations, simulated transcripts, degenerate signatures and compensating multi-field changes; differential against independent relation evaluators",
+ "C11": ("proptest over atom perturbations, simulated transcripts, degenerate-but-valid transcripts (identity elements, zero responses), degenerate signatures and compensating multi-field changes; differential against independent relation evaluators",
          "Verifier verdict == Schnorr / pairing relation evaluated on the wire atoms (each conjunct separately), for accept and reject classes, plus expectation by construction; includes proofs in which the discrepancy of one relation is moved into the other and signature proofs assembled from the public key alone; a change of any field outside the relations must reject too.",
          "bls12_381 pairing and group law",
          "5 C11"),
@@ -83,7 +83,7 @@ CHECKS = {
          "Key / parameter generation under uniform streams and under all-zero windows at every recorded draw (widths 1-3): non-zero secrets, non-identity elements, matching discrete logs, decode-time validation, signatures verify, validate() ok.",
          "bls12_381 arithmetic; draw alignment taken from a recorded first pass",
          "5 C19"),
- "C20": ("model-based history generation with twin execution (state restored from its encoding at every step)",
+ "C20": ("model-based history generation with twin execution (state restored from its encoding at every step), randomness steered to rare revocation-pair indices",
          "The restored twin receives the same replies and randomness as the never-stored customer: identical decisions, byte-identical next states and outgoing messages.",
          "identical RNG seeds give identical library behaviour",
          "5 C20"),
